@@ -180,6 +180,8 @@ theorem rangeFn_onlyRec (s : St) (f n : Int) : OnlyRec (rangeFn s f n) := by
   unfold rangeFn at hv
   split at hv
   · simp at hv; subst hv; rfl
+  split at hv
+  · simp at hv; subst hv; rfl
   · rename_i w' h; exact absurd h (bitioxRange_nofault _ _ _ _)
   · split at hv
     · simp at hv; subst hv; rfl
